@@ -328,6 +328,38 @@ func clusterHandlerRouting(c *rt.Ctx, nkeys int) {
 				}
 			}
 		}
+		// pairs of different keys that common 32-bit hashes cannot tell apart (FNV-1a, FNV-1, CRC-32),
+		// used back to back on one connection: whatever a handler remembers about the key it routed
+		// last must not decide where the next one goes
+		for _, pair := range [][2]string{{"costarring", "liquid"}, {"declinate", "macallums"}, {"altarage", "zinke"}, {"plumless", "buckeroo"}, {"liquid", "costarring"}} {
+			for hi, h := range []cluster.Handler{hA, hB, hC} {
+				for _, k := range pair {
+					if r := CallHandler(h, wire.Op{Kind: "set", Key: k, Val: "v-" + k}); r.Class != "ok" {
+						c.Violation("C19 cluster-handler-set", fmt.Sprintf("set %q: %s", k, r), nil)
+					}
+				}
+				for _, h2 := range []cluster.Handler{hC, hA, hB} {
+					for _, k := range []string{pair[1], pair[0]} {
+						r := CallHandler(h2, wire.Op{Kind: "get", Key: k})
+						c.Eval(1)
+						var on []string
+						for a, st := range stores {
+							if it := st.Lookup(k); it != nil {
+								on = append(on, a)
+							}
+						}
+						want := mkRing(addrs).Hash([]byte(k)).Label()
+						if len(r.Hits) != 1 || r.Hits[0].Val != "v-"+k || len(on) != 1 || on[0] != want {
+							if moved == 0 {
+								c.Violation("C19 routing-depends-on-previous-key", fmt.Sprintf("%d nodes: keys %q and %q used back to back on connection %d: get %q returned %s; the key is stored on %v, the ring names %s", n, pair[0], pair[1], hi, k, r, on, want),
+									map[string]interface{}{"labels": addrs, "pair": pair})
+							}
+							moved++
+						}
+					}
+				}
+			}
+		}
 		// the entry lives on exactly one node, the one the handler's ring names
 		for i := 0; i < nkeys && moved == 0; i++ {
 			k := fmt.Sprintf("ck:%d:%x", i, i*40503)
